@@ -117,7 +117,8 @@ class NetworkInterface(SimComponent, ABC):
         self.traffic = {}
         if episode and self.pcap and SIM_OUTPUT.save_pcap_logs:
             self.pcap.current_episode = episode
-            self.pcap.setup_logger()
+            self.pcap.setup_logger(outbound=False)
+            self.pcap.setup_logger(outbound=True)
         self.enable()
 
     def _init_request_manager(self) -> RequestManager:
